@@ -180,6 +180,79 @@ def refusal_histories(ctx, digital_rf, count):
     return s4
 
 
+def multi_writer_histories(ctx, digital_rf, count, npairs=2, nvec=0):
+    """groups of 2-3 channels of one rate and different cadences (half of the groups share the subdirectory cadence) written
+    and read by one process: one after the other (the next recording starts inside the file period the previous one has
+    just written) or alternately, burst by burst; then each is read, coarse cadence first in half of the groups.  What one
+    writer or reader object learned about its channel must not leak into another's.  Returns (scenarios, file records)."""
+    import numpy as np
+    rng = ctx.rng
+    scen, recs = [], []
+    for i in range(count):
+        n, d, fc = cg.random_rate(rng, 300)
+        common_sc = i % 2 == 0
+        if common_sc:
+            variants = [(fc, 4), (fc * 2, 2), (fc * 4, 1)]
+        else:
+            variants = [(fc, 1), (fc * 2, 1), (fc * 3, 2), (fc, 5)]
+        rng.shuffle(variants)
+        variants = variants[:rng.choice([2, 2, 3])]
+        unit = max(f * k for f, k in variants) if common_sc else None
+        t0 = (rng.randint(315532800, 4102444800) * 1000) // (fc * 12000) * (fc * 12000)
+        chans = []
+        for vi, (fcv, k) in enumerate(variants):
+            sc_ms = unit if common_sc else fcv * k
+            step = sc_ms
+            while sc_ms % 1000:
+                sc_ms += step
+            cfg = cd.ChanConfig(n, d, fcv, sc_ms // 1000, np.dtype("<i2"), False, 1, rng.choice(["gapped", "contC"]), t0, 4, seed=1000 * i + vi)
+            root = os.path.join(ctx.work, "chan_pair%d" % vi)
+            shutil.rmtree(root, ignore_errors=True)
+            os.makedirs(root)
+            chans.append((cfg, cd.Channel(digital_rf, root, cfg, [cfg.params()]), root))
+        if rng.random() < 0.5:
+            # one after the other (a short burst each, the next channel starting inside the file period just written)
+            cfg0 = chans[0][0]
+            abs0 = cfg0.bound[1] + cfg0.B + rng.choice([0, 1, 2])
+            for ci, (cfg, ch, root) in enumerate(chans):
+                b = cfg.bound
+                rel = abs0 + ci - cfg.B
+                if not (b[0] <= rel < b[-1] - 8):
+                    continue
+                ch.open(1, rel, 1)
+                ch.write([[rel, rng.choice([1, 2, 3])]])
+                if rng.random() < 0.5:
+                    ch.write([[rel + 4, 2]])
+                ch.close()
+        else:
+            # alternately, burst by burst
+            for cfg, ch, root in chans:
+                ch.open(1, cfg.bound[0], 1)
+                ch.pos = cfg.bound[0]
+            for burst in range(3):
+                for cfg, ch, root in chans:
+                    b = cfg.bound
+                    ln = max(1, min((b[1] - b[0]) // 2 + 1, b[-1] - ch.pos - 1, 3000))
+                    if ln >= 1 and ch.pos + ln < b[-1]:
+                        ch.write([[ch.pos, ln]])
+                        ch.pos += ln
+            for cfg, ch, root in chans:
+                ch.close()
+        order = sorted(range(len(chans)), key=lambda x: -chans[x][0].fc) if i % 4 < 2 else list(range(len(chans)))
+        for vi in order:
+            cfg, ch, root = chans[vi]
+            if ch.sess is None and not ch.events:
+                continue
+            ch.observe([1], rng, npairs=npairs, nvec=nvec)
+        for vi, (cfg, ch, root) in enumerate(chans):
+            scen.append(ch.scenario("pair%d-%d" % (i, vi)))
+            recs.append((cfg, ch.file_records))
+            ch.kept = []
+            shutil.rmtree(root, ignore_errors=True)
+    ctx.extra["channel_groups_handled_by_one_process"] = count
+    return scen, recs
+
+
 def account(ctx, scen, nsim, what):
     ev = [e for s in scen for e in s["events"]]
     kinds = {}
